@@ -150,9 +150,8 @@ func (g *G) MsgStress(allowPlural bool) []Cmd {
 				pl.Branches = append(pl.Branches, Branch{Int: k, Body: parts(1 + g.Intn(4))})
 			}
 		}
-		pl.Else = parts(1 + g.Intn(4))
-		if g.Chance(6) {
-			pl.Else = nil // (a plural whose {default} says nothing)
+		if !g.Chance(6) { // (else: a plural whose {default} says nothing)
+			pl.Else = parts(1 + g.Intn(4))
 		}
 		msg.Body = []Cmd{pl}
 	} else {
